@@ -128,10 +128,10 @@ def finish(R, tier, meta, t0, root, write_evidence=True, quiet=False):
     n_obl = len(R.items)
     n_holds = sum(1 for it in R.items if it['verdict'] == HOLDS)
     wall = time.time() - t0
-    if undecided:
+    if violations:
+        code = 1        # a positively established violation stands even if other instances could not be decided
+    elif undecided:
         code = 2
-    elif violations:
-        code = 1
     else:
         code = 0
     status = {0: 'HOLDS', 1: 'VIOLATED', 2: 'ANALYSIS-BROKEN'}[code]
